@@ -34,6 +34,7 @@ CONFIRMED = [
     "neg32",          # [F11] 32: negative values (64 planes)
     "minmax32",       # [F12] 32: MinMax
     "equals_width",   # [F13] 64: Equals between indexes holding the same map at different widths (negative values)
+    "inc_neg32",      # [agBSI32] 32: Increment/Add TOUCHING a negative value (carry out of plane 63 appends plane 64; BatchEqual then misses the column)
 ]
 # plain feature switches (no defect behind them on the current tree; useful when bisecting)
 SWITCHES = [
@@ -58,7 +59,7 @@ def env_avoid():
     # default: the script shapes of the findings RECORDED in known_findings.json (not repaired: format change needed /
     # out of the properties' scope) are not generated, so that the rest of the family is explored; the recorded findings
     # themselves are replayed from corpus/ by the runner
-    return set(x for x in os.environ.get("BSI_AVOID", "marsh_neg,equals_width").split(",") if x)
+    return set(x for x in os.environ.get("BSI_AVOID", "marsh_neg,equals_width,inc_neg32").split(",") if x)
 
 
 def blen64(v):
@@ -314,7 +315,7 @@ class BG:
             return False
         for c in targets:
             v = idx.vals.get(c, 0)
-            if v < 0:
+            if v < 0 and (idx.is64 or idx.fixed is not None or self.av("inc_neg32")):
                 return False
             nv = v + addend.get(c, 1)
             if idx.fixed is not None and not (idx.fixed[1] <= nv <= idx.fixed[0]):
@@ -874,19 +875,26 @@ class BG:
 
 
 def add_plane_checks(g):
-    """after every dump of a 64-bit index also compare its bit planes with the plane-level model (Impl/BSI.lean)"""
+    """after every dump of an index also compare its bit planes with the plane-level model (64-bit: Impl/BSI.lean,
+    32-bit: Impl/BSI32.lean)"""
     is64 = set()
+    is32 = set()
     out = []
     for l in g.lines:
         t = l.split(" ")
         if t[0] == "bnew" and len(t) >= 3:
             (is64.add if t[2] == "64" else is64.discard)(t[1])
-        elif t[0] in ("bclone", "bretainset", "bmarsh", "bstream") and len(t) >= 3:
+            (is32.add if t[2] == "32" else is32.discard)(t[1])
+        elif t[0] in ("bclone", "bretainset", "bmarsh", "bstream", "btwc") and len(t) >= 3:
             (is64.add if t[2] in is64 else is64.discard)(t[1])
+            (is32.add if (t[2] in is32 and t[0] != "bstream") else is32.discard)(t[1])
         out.append(l)
         if t[0] == "bdump" and len(t) == 2 and t[1] in is64:
             out.append("bplanes %s" % t[1])
             g.count("bsi:bplanes")
+        elif t[0] == "bdump" and len(t) == 2 and t[1] in is32:
+            out.append("bplanes %s" % t[1])
+            g.count("bsi:bplanes32")
     g.lines[:] = out
 
 
@@ -964,6 +972,35 @@ def full_width_batch_equal(g, n):
             g.count("beq:fullwidth" + w)
 
 
+def inc_negative_batch_equal(g, b):
+    """32-bit index: Increment / Add touching a negative value, then every query family on the result (tag inc_neg32)"""
+    if b.av("inc_neg32"):
+        return
+    r = g.r
+    for how in ("binc", "badd"):
+        s = g.fresh("s")
+        g.emit("bnew %s 32" % s)
+        neg = r.choice([-1, -3, -70000])
+        g.emit("bset %s 1 %d" % (s, neg))
+        g.emit("bset %s 2 5" % s)
+        if how == "binc":
+            g.emit("binc %s @" % s)
+            res = neg + 1
+        else:
+            t = g.fresh("s")
+            add = r.choice([1, 5, 70001])
+            g.emit("bnew %s 32" % t)
+            g.emit("bset %s 1 %d" % (t, add))
+            g.emit("badd %s %s" % (s, t))
+            res = neg + add
+        g.emit("bdump %s" % s)
+        g.emit("bget %s 1" % s)
+        g.emit("bcmp %s %s 1 EQ %d" % (g.fresh("r"), s, res))
+        g.emit("bsum %s -" % s)
+        g.emit("beq %s %s 1 %d" % (g.fresh("r"), s, res))
+        g.count("inc_neg32:" + how)
+
+
 @suite("bsi")
 def _bsi(g, scale):
     b = BG(g, env_avoid())
@@ -979,6 +1016,7 @@ def _bsiq(g, scale):
     for _ in range(int(30 * scale)):
         b.episode_queries(g.r.choice([15, 30, 45]))
     full_width_batch_equal(g, max(1, int(3 * scale)))
+    inc_negative_batch_equal(g, b)
     add_plane_checks(g)
 
 
@@ -1088,3 +1126,4 @@ def _bsix(g, scale):
     for base in (1 << 62, 1 << 63, 1 << 64, -(1 << 64), (1 << 70) + 3):
         for ncols in (1, 5, 9):
             _exhaustive_big(g, b, base, ncols)
+    add_plane_checks(g)
